@@ -1154,6 +1154,14 @@ def scripted_sequences(rng):
     return seqs
 
 
+def translators(ctx):
+    """Generated/IndexExprs.lean: every condition and arithmetic expression the model uses, re-extracted from
+    _cffi_backend.c (translate/c16_exprs.py)."""
+    sys.path.insert(0, os.path.join(common.VERIF, "translate"))
+    import c16_exprs
+    return [c16_exprs.translator]
+
+
 # ------------------------------------------------------------------ running
 
 def nontrivial_key(ek, op, real):
